@@ -22,7 +22,7 @@ func init() {
 			"reference-count fields are touched only by the ref-count protocol functions and parts are released only when the count reaches zero; the table's snapshot pointer is read and written under the table lock; " +
 			"trace snapshot transactions are committed only under the publication fence; the generic Transition/Transaction release what they pinned; the mutable removable flag is read only by the release path and by sidx' counting accessor, never to derive a reader's part set; the merged-id set handed to a merge introduction is not written again by the caller.",
 		NotDecided: "linearizability of what a query observes, absence of data races in general, whether the row-path trace query needs the publication fence.",
-		Technique:  "SSA acquire/release typestate with alias closure and ownership transfer; field-write confinement; must-lockset analysis",
+		Technique:  "SSA acquire/release typestate with alias closure and ownership transfer; field-write confinement; must-lockset analysis; read confinement of a mutable flag by a semantic predicate; hand-over-then-mutate path search (also through captured variables)",
 		Run:        runC05,
 	})
 }
